@@ -13,16 +13,15 @@ def kindChange {V} (existing : Option (Stored V)) (d : Desc V) : Bool :=
   | some (.plain _) => d.isAccessor
   | some (.prop p) => if p.accessor then d.isData else d.isAccessor
 
-theorem cell_any {V} [DecidableEq V] (fixed : Bool) (undef : V) (existing : Option (Stored V)) (d : Desc V) (ext : Bool)
-    (hw : d.wellFormed = true) (hinv : ∀ s, existing = some s → s.repInv = true)
-    (hk : fixed = true ∨ kindChange existing d = false) : CellOk fixed undef existing d ext := by
+theorem cell_any {V} [DecidableEq V] (undef : V) (existing : Option (Stored V)) (d : Desc V) (ext : Bool)
+    (hw : d.wellFormed = true) (hinv : ∀ s, existing = some s → s.repInv = true) : CellOk undef existing d ext := by
   cases existing with
-  | none => exact cell_new fixed undef d ext hw
+  | none => exact cell_new undef d ext hw
   | some s =>
     have hri := hinv s rfl
     clear hinv
     cases s with
-    | plain x => exact cell_plain fixed undef x d ext hw (by simpa [kindChange] using hk)
+    | plain x => exact cell_plain undef x d ext hw
     | prop p =>
       obtain ⟨pv, pw, pc, pe, pa, pg, ps⟩ := p
       cases pa
@@ -32,13 +31,12 @@ theorem cell_any {V} [DecidableEq V] (fixed : Bool) (undef : V) (existing : Opti
         cases pv with
         | none => simp at hv
         | some x =>
-          have hk' : fixed = true ∨ d.isAccessor = false := by simpa [kindChange] using hk
           cases pc
-          · exact cell_data_ncfg fixed undef x pw pe d ext hw hk'
-          · exact cell_data_cfg fixed undef x pw pe d ext hw hk'
+          · exact cell_data_ncfg undef x pw pe d ext hw
+          · exact cell_data_cfg undef x pw pe d ext hw
       · simp [Stored.repInv, VProp.repInv] at hri
         obtain ⟨hpw, hpv⟩ := hri
         subst hpw; subst hpv
-        exact cell_acc fixed undef pg ps pe pc d ext hw (by simpa [kindChange] using hk)
+        exact cell_acc undef pg ps pe pc d ext hw
 
 end GojaModel.C04
